@@ -136,7 +136,11 @@ def sync_property(
             find_in_ast(list(strip_split(input_param, ".")), input_ast)
         )
 
-    assert replacement_node is not None
+    # Not an `assert`: under `python -O` an unresolved location must still be an error
+    if replacement_node is None:
+        raise LookupError(
+            "{!r} not found in {!r}".format(input_param, input_filename)
+        )
     if output_param_wrap is not None:
         if hasattr(replacement_node, "annotation"):
             if replacement_node.annotation is not None:
@@ -158,9 +162,12 @@ def sync_property(
     )
 
     gen_ast = rewrite_at_query.visit(output_ast)
-    assert rewrite_at_query.replaced is True, "Failed to update with {!r}".format(
-        to_code(replacement_node)
-    )
+    if rewrite_at_query.replaced is not True:
+        raise LookupError(
+            "Failed to update {!r} with {!r}".format(
+                output_param, to_code(replacement_node).rstrip("\n")
+            )
+        )
     return gen_ast
 
 
